@@ -28,10 +28,19 @@ Print Assumptions oracle_independent.
 (* The funnel: every place where suds parses XML (Parser.parse string / file,
    client._parse for replies and injected messages, DocumentReader.__fetch,
    DocumentCache.get) obtains its parser from Parser.saxparser, which switches
-   the feature off whatever the library default is. *)
-Theorem entry_points_flags_off : forall e lib_default, ges (entry_config e lib_default) = false.
+   the feature off whatever the library default is and whatever the document
+   is (its XML declaration -- standalone yes / no / absent -- included). *)
+Theorem entry_points_flags_off : forall e lib_default x, ges (entry_config e lib_default x) = false.
 Proof. exact entry_config_off. Qed.
 Print Assumptions entry_points_flags_off.
+
+(* The XML declaration has no say in what is read either: standalone="no" is
+   the same document as no standalone pseudo-attribute, for every parser
+   configuration and outside world. *)
+Theorem standalone_no_is_absent : forall fuel cfg resolve ext subset body,
+  read fuel cfg resolve (mkDoc SNo ext subset body) = read fuel cfg resolve (mkDoc SAbsent ext subset body).
+Proof. exact read_standalone_no. Qed.
+Print Assumptions standalone_no_is_absent.
 
 (* Hence, through every suds entry point, for every library default, every
    outside world and every document: no outside access, and a result that
@@ -86,7 +95,7 @@ Print Assumptions content_fuel_suffices.
    the file and does include its content (so the theorems above are about
    the flag, not about a reader that could not reach outside anyway). *)
 Definition xxe_doc : doc :=
-  (mkDoc false None [DGenExt 10 1] [TOpen 20 []; TText [97]; TRef 10; TClose 20])%N.
+  (mkDoc SAbsent None [DGenExt 10 1] [TOpen 20 []; TText [97]; TRef 10; TClose 20])%N.
 Definition xxe_world (s : sysid) : option resource :=
   if N.eqb s 1 then Some (RText [TText [marker]]) else None.
 
@@ -99,7 +108,7 @@ Print Assumptions feature_on_reaches_outside.
    that does declare and reference external entities, an external subset and
    an external parameter entity; with the feature off it parses to a tree *)
 Definition busy_doc : doc :=
-  (mkDoc false (Some 2)
+  (mkDoc SAbsent (Some 2)
     [DGenExt 10 1; DGenInt 11 [TText [120]; TRef 10; TOpen 21 [(30, [AText [118]])]; TClose 21];
      DGenInt 14 [TText [120]]; DAttDef 20 31 [ARef 14]; DParExt 12 4; DParRef 12; DGenInt 13 [TText [122]]]
     [TOpen 20 [(30, [AText [107]])]; TText [97]; TRef 11; TRef 10; TRef 13; TClose 20])%N.
